@@ -7,6 +7,8 @@ NOTE = ("Trusted base: Go type checker, go/ssa, VTA call graph (sound absent ref
         "Decides structural necessary conditions only; the behaviour itself (values for every input/history/schedule) is not decided.")
 
 CLAIMS = {
+ "C13": dict(text="Totality of the Go natives behind every function fq adds, as far as runtime faults have statically visible preconditions: for all Go functions registered into jq and the JQValue methods of fq's value types, and everything they reach by static calls/closures outside the decode subtree, every integer division/modulo, shift by a signed count, make size, Repeat/SetIndent count, number base, constant index into an option string and unchecked type assertion with a non-constant operand has its precondition proved by dominating guards, clamps, intervals or struct-field invariants (lifted to every call site for parameters and captured variables); the field invariants themselves (display options clamped by OptionsFromValue, Binary.unit>=1) are checked at every writer; every explicit panic is classified. Does not decide resource exhaustion, faults inside third-party encoders, or faults whose precondition is not of these kinds (general index/nil).",
+             technique="SSA interval analysis + polynomial guard facts, interprocedural lifting of preconditions to call sites, field-invariant writer checks", design="DESIGN.md §3 C13"),
  "C18": dict(text="Decides the absence of process-wide mutable state that two decodes could share or race on, as far as it is visible in the code: no package-level variable of the fq module is written (store, map update, delete, in-place sort/copy, through a mutating parameter or capturing closure; interprocedural summaries) outside package initialisation except under sync.Once, under the owner's own mutex, or in registrars callable only from init; registry group resolution and its in-place sorts run only under the Once and registration refuses afterwards; registered default in-args are plain values; Eval works on an interpreter copy with a fresh EvalInstance; slices aliasing the shared read buffer never escape. Does not decide data-race freedom in general nor determinism of output.",
              technique="SSA ownership analysis: who-may-write package-level variables with interprocedural mutates-through-parameter summaries; who-may-call; escape scan of scratch-buffer aliases", design="DESIGN.md §3 C18"),
  "C01": dict(text="Decides, on every run, structural clauses of the reader plumbing: the io.Seeker contract of every computing SeekBits/Seek per whence arm (polynomial normal form of the stored cursor and returned position), the window clamps and EOF conditions of Section/Limit/Zero/Multi readers and that cursors/limits advance by the bits actually returned, the byte fetch and short-read truncation of IOBitReadSeeker.ReadBitsAt, the read-ahead cache typestate (invalidate after re-positioning, refill bookkeeping, hit window), and that no error of a wrapped reader is dropped in the plumbing packages. Does not decide bit-exactness of Read64/Write64 unaligned arms, readFull stitching or IOReader's carry buffer under arbitrary histories.",
